@@ -615,10 +615,19 @@ impl IoLoop {
                     )
                     .context(RegisterWithPollHandleSnafu)?;
             } else if had_data_to_write {
-                trace!("reregistering socket for readable only");
                 have_written_to_socket = true;
+                // The very first write may have been short (or would-block): keep
+                // writable interest while data is still queued, or it would never
+                // be written.
+                let interest = if self.inner.has_data_to_write() {
+                    trace!("reregistering socket for readable or writable");
+                    Ready::readable() | Ready::writable()
+                } else {
+                    trace!("reregistering socket for readable only");
+                    Ready::readable()
+                };
                 self.poll
-                    .reregister(stream, STREAM, Ready::readable(), PollOpt::edge())
+                    .reregister(stream, STREAM, interest, PollOpt::edge())
                     .context(RegisterWithPollHandleSnafu)?;
             }
 
